@@ -115,7 +115,7 @@ def run(ctx):
     ctx.declined = [
         "bit-exact equality with a bit-by-bit reference for all (offset, length, size, contents, value) - numerical",
         "float16 nearest/adjacent rounding, monotonicity, 2^16 round trip - numerical (only C/C++ agreement of the routines is decided)",
-        "Python Serializer/Deserializer/ZeroExtendingBuffer - numpy slicing cannot overrun; value-level behaviour is numerical",
+        "Python Serializer/Deserializer/ZeroExtendingBuffer: value-level behaviour is numerical (cursor arithmetic, width tables, shift pairs, masks and zero extension are decided)",
     ]
     for r, t in RULES.items():
         ctx.rule(r, t)
@@ -178,3 +178,6 @@ def run(ctx):
         ctx.ob(R, CPP_TMPL, key, not bad, "; ".join(bad)[:600], _line_of(ctx, CPP_TMPL, key.split(" == ")[1]))
     for r, n in FLOORS_QUICK.items():
         ctx.floor(r, ctx.count(r), n)
+    # the Python support module: structural rules over the rendered Serializer / Deserializer / ZeroExtendingBuffer
+    from checks import _c14_py
+    _c14_py.run(ctx)
